@@ -5,6 +5,7 @@ import M3d.Model.SoupFast
 import M3d.Model.RectSpec
 import M3d.Model.McFan
 import M3d.Model.RectMesh
+import M3d.Model.C01Search
 import M3d.Gen.McTable
 /-! Line-protocol handler for C01. Core-only. -/
 namespace M3d.Drv.C01
@@ -287,6 +288,92 @@ def handleMss (ws : List String) : Option String := do
     let h := msetHash (mesh.map fun s => [s.1.1, s.1.2, s.2.1, s.2.2])
     some s!"inout={boolStr (inOutOk ss)} outward={boolStr outward} {h}"
 
+/-- rotate a triangle so that its lexicographically least vertex comes first (orientation kept) -/
+def gvLt (a b : GV) : Bool :=
+  a.1 < b.1 || (a.1 == b.1 && (a.2.1 < b.2.1 || (a.2.1 == b.2.1 && a.2.2 < b.2.2)))
+
+def canonRot (t : GV × GV × GV) : GV × GV × GV :=
+  let a := t.1; let b := t.2.1; let c := t.2.2
+  if gvLt b a then (if gvLt c b then (c, a, b) else (b, c, a))
+  else (if gvLt c a then (c, a, b) else (a, b, c))
+
+/-- `mcj nx ny nz bits rev tag…` : `MarchingCubesConj`.  `nx ny nz bits` is the lattice labelling of the TRANSFORMED solid
+(lattice POINTS, outer layer included), `rev = 1` iff the joined transform reverses orientation.  The harness mapped the
+returned mesh forward again (exactly) and snapped it to that lattice.  Answer: the plain lattice mesh, every triangle
+reversed iff `rev = 1` — an outward mesh of the original space, seen from the lattice space through an
+orientation-reversing map, is inside out (`M3d.C01.conj_flip_iff_reversing`, `conj_normals_follow_the_solid`, `mc_conj_outward_on_every_lattice_partial`,
+`mc_conj_edges_balanced_on_every_lattice`, `mc_conj_fans_one_cycle_on_every_lattice`).  Triangles are hashed up to rotation.
+`outward` = the sign of the lattice-space volume, times −1 for `rev = 1`, is positive. -/
+def handleMcj (ws : List String) : Option String := do
+  let nx :: ny :: nz :: bits :: rev :: _ := ws | none
+  let nx ← nx.toNat?; let ny ← ny.toNat?; let nz ← nz.toNat?; let rev ← rev.toNat?
+  let b := bitsOf bits
+  if b.size ≠ nx * ny * nz || rev > 1 then none
+  let labF := lab3p b nx ny nz
+  if !outerEmpty3 labF nx ny nz then some "outer-layer-not-empty"
+  else
+    let mesh0 := mcMesh Gen.mcTable (nx - 1) (ny - 1) (nz - 1) labF
+    let mesh := if rev == 1 then mesh0.map C01Search.flip3 else mesh0
+    let wx := 2 * nx + 1; let wy := 2 * ny + 1; let wz := 2 * nz + 1
+    let enc : GV → Nat := fun v => v.1 + wx * (v.2.1 + wy * v.2.2)
+    let ts : List (Nat × Nat × Nat) := mesh.map fun t => (enc t.1, enc t.2.1, enc t.2.2)
+    let n := wx * wy * wz
+    let vol : Int := mesh.foldl (fun acc t =>
+      let a := t.1; let b := t.2.1; let c := t.2.2
+      let ax : Int := a.1; let ay : Int := a.2.1; let az : Int := a.2.2
+      let bx : Int := b.1; let by' : Int := b.2.1; let bz : Int := b.2.2
+      let cx : Int := c.1; let cy : Int := c.2.1; let cz : Int := c.2.2
+      acc + (ax * (by' * cz - bz * cy) - ay * (bx * cz - bz * cx) + az * (bx * cy - by' * cx))) 0
+    let outward := mesh.isEmpty || (if rev == 1 then vol < 0 else vol > 0)
+    let h := msetHash (mesh.map fun t0 =>
+      let t := canonRot t0
+      [t.1.1, t.1.2.1, t.1.2.2, t.2.1.1, t.2.1.2.1, t.2.1.2.2, t.2.2.1, t.2.2.2.1, t.2.2.2.2])
+    some s!"balanced={boolStr (balancedOk n ts)} fans={boolStr (fanCyclesOk n ts)} outward={boolStr outward} {h}"
+
+/-- `msj nx ny bits rev tag…` : `MarchingSquaresConj`, as `mcj` (`M3d.C01.ms_conj_closed_on_every_lattice`,
+`conj2_flip_iff_reversing`, `ms_conj_outward_on_every_lattice_partial`). -/
+def handleMsj (ws : List String) : Option String := do
+  let nx :: ny :: bits :: rev :: _ := ws | none
+  let nx ← nx.toNat?; let ny ← ny.toNat?; let rev ← rev.toNat?
+  let b := bitsOf bits
+  if b.size ≠ nx * ny || rev > 1 then none
+  let labF := lab2p b nx ny
+  if !outerEmpty2 labF nx ny then some "outer-layer-not-empty"
+  else
+    let mesh0 := msMesh Gen.msTable (nx - 1) (ny - 1) labF
+    let mesh := if rev == 1 then mesh0.map C01Search.flip2 else mesh0
+    let w := 2 * nx + 1
+    let ss : List (Nat × Nat) := mesh.map fun s => (s.1.1 + w * s.1.2, s.2.1 + w * s.2.2)
+    let area2 : Int := mesh.foldl (fun acc s =>
+      let x1 : Int := s.1.1; let y1 : Int := s.1.2; let x2 : Int := s.2.1; let y2 : Int := s.2.2
+      acc + (x1 * y2 - x2 * y1)) 0
+    let outward := mesh.isEmpty || (if rev == 1 then area2 > 0 else area2 < 0)
+    let h := msetHash (mesh.map fun s => [s.1.1, s.1.2, s.2.1, s.2.2])
+    some s!"inout={boolStr (inOutOk ss)} outward={boolStr outward} {h}"
+
+/-- `soup2o nv <x y hex>*nv ns <a b>*ns tag…` : a real 2-D output with exact coordinates: verdict of the deciders plus
+the sign of the exact signed area (contained side on the right of every segment ⇒ shoelace sum negative). -/
+def handleSoup2o (ws : List String) : Option String := do
+  let nv ← (← ws.head?).toNat?
+  let cs ← ((ws.drop 1).take (2 * nv)).mapM fun h => do
+    let n ← parseHex h
+    ratOfBits n.toUInt64
+  if cs.length ≠ 2 * nv then none
+  let rec pr : List Rat → List (Rat × Rat)
+    | a :: b :: r => (a, b) :: pr r
+    | _ => []
+  let vs := (pr cs).toArray
+  let ws := ws.drop (1 + 2 * nv)
+  let ns ← (← ws.head?).toNat?
+  let ids ← parseNats ((ws.drop 1).take (2 * ns))
+  if ids.length ≠ 2 * ns then none
+  let ss := pairUp ids
+  let area2 : Rat := ss.foldl (fun acc s =>
+    let a := vs.getD s.1 (0, 0); let b := vs.getD s.2 (0, 0)
+    acc + (a.1 * b.2 - b.1 * a.2)) 0
+  some s!"inout={boolStr (inOutOk ss)} outward={boolStr (decide (area2 < 0))}"
+
+
 /-- `same <what> tag…` : the harness compared the coarse-to-fine output face-for-face (exact float
 coordinates) with the direct fine `Marching…Search` output of the same solid; the theorems
 `c2f_*_under_documented_cover` (through `M3d.C12.c2f_ms_sound / c2f_mc_sound`) demand `same`. -/
@@ -460,6 +547,9 @@ def handleAll (ws : List String) : Option String :=
   | "mcc2f" :: rest => handleMcC2F rest
   | "mcs" :: rest => handleMcs rest
   | "mss" :: rest => handleMss rest
+  | "mcj" :: rest => handleMcj rest
+  | "msj" :: rest => handleMsj rest
+  | "soup2o" :: rest => handleSoup2o rest
   | "same" :: rest => handleSame rest
   | "rectset" :: rest => handleRectSet rest
   | "rsmesh" :: rest => handleRsMesh rest
